@@ -59,7 +59,12 @@ pub trait RollingFinal<T>: Vec1View<T> {
             window,
             |arr| {
                 let acc_func = |acc: f64, (v, c): (T, f64)| acc + v.cast() * c;
-                arr.titer().zip(coef.titer()).fold(0., acc_func).cast()
+                // align from the newest element: a warm-up window is shorter than `coef`
+                arr.titer()
+                    .rev()
+                    .zip(coef.titer().rev())
+                    .fold(0., acc_func)
+                    .cast()
             },
             out,
         )
